@@ -127,3 +127,25 @@ Proof. exact location_path_is_the_prescribed_path. Qed.
 (* the evaluator reads a prefix rewrite directive back as the rewrite it was written for, whatever the prefix contains *)
 Theorem C02_rewrite_directive_round_trip : forall r, parse_prefix_rewrite (regex_text r) (repl_text r) = Some r.
 Proof. exact parse_print. Qed.
+
+(* ---- the choice of the server block (model of NGINX's selection by server_name, ngx/Eval.pick_server, which every routing oracle
+   uses): for every list of server blocks and every requested name the chosen server has a name that serves the request and no name of
+   any server that serves it ranks higher (exact, then the longest wildcard, then the catch-all) - "most specific hostname first". The
+   evaluator's notions of serving and rank are the specification's (Spec.name_serves / name_rank) for the names the generator writes. *)
+From NGF Require Import ngx.ServerSelProofs.
+
+Theorem C02_server_choice_is_the_most_specific_name :
+  forall srvs h s, pick_server None srvs h = Some s ->
+  In s srvs /\
+  exists x, In x (server_names s) /\ ngx_name_serves x h = true /\
+            forall s' x', In s' srvs -> In x' (server_names s') -> ngx_name_serves x' h = true -> ngx_name_rank x' <= ngx_name_rank x.
+Proof. exact pick_server_is_most_specific. Qed.
+
+Theorem C02_a_served_name_always_finds_a_server :
+  forall srvs h s x, In s srvs -> In x (server_names s) -> ngx_name_serves x h = true -> pick_server None srvs h <> None.
+Proof. exact pick_server_finds. Qed.
+
+Theorem C02_evaluator_and_specification_rank_names_alike :
+  forall x h, (has_prefix "~" x = false \/ x = catch_all) ->
+  ngx_name_serves x h = name_serves x h /\ ngx_name_rank x = name_rank x.
+Proof. intros x h H. split; [exact (serves_is_spec x h H)|exact (rank_is_spec x H)]. Qed.
